@@ -273,6 +273,25 @@ class HandGen:
                 self.taken.add(out)
                 avail.append(out)
                 self.features.add("subgraph-captures-outer")
+            elif k < 0.945 and not self.scalar_int and depth < 1:
+                # Loop(M, "", x0) whose body captures outer values (and may hold an If capturing two levels up)
+                out, mname = self.fresh(), self.fresh()
+                it, ci, xi, co = self.fresh(), self.fresh(), self.fresh(), self.fresh()
+                nodes.append(H.make_node("Constant", [], [mname], value=NH.from_array(np.array(rng.randrange(1, 4), np.int64), mname)))
+                bavail, bconds = [xi] + list(avail), list(conds)
+                bnodes = [H.make_node("Identity", [ci], [co])]
+                bnodes += self.body(bavail, bconds, depth + 1, node_names, rng.randrange(1, 4))
+                local = [v for v in bavail if v not in avail and v != xi]
+                xo = self.fresh()
+                bnodes.append(H.make_node(rng.choice(["Add", "Sub"]), [xi, rng.choice(local or bavail)], [xo]))
+                bg = H.make_graph(bnodes, "loop_body",
+                                  [_vi(it, TP.INT64, []), _vi(ci, TP.BOOL, []), _vi(xi, self.elem, self.shape)],
+                                  [_vi(co, TP.BOOL, []), _vi(xo, self.elem, self.shape)])
+                nodes.append(H.make_node("Loop", [mname, "", rng.choice(avail)], [out], name=self.node_name(out, node_names), body=bg))
+                avail.append(out)
+                self.features.add("loop-body-captures-outer")
+                if any(n.op_type == "If" for n in bnodes):
+                    self.features.add("if-inside-loop")
             elif self.allow_custom and k < 0.96:
                 out = self.fresh()
                 nodes.append(H.make_node("MyOp", [rng.choice(avail)], [out], domain="custom.dom", alpha=1.0,
